@@ -10,11 +10,13 @@
    refused datatype change, value assignment through a lazily created element, partly admissible
    value; F20: refused datatype object).  C12_atomic_partial_* prove it for the rejection causes
    where it holds: a refused add (wrong class or name, foreign child, cardinality, level, version),
-   an assignment whose child name does not resolve or whose value the parser refuses, a deletion of
-   an absent child. *)
+   an assignment whose child name does not resolve or whose value the parser refuses, an assignment
+   refused at admission time when it would append, an element of another name, a deletion of an
+   absent child. *)
 From Coq Require Import List Bool Arith Lia ZArith NArith Init.Byte.
 From HL7 Require Import Lib.Str Model.Ec Model.Result Model.Ref Model.Tree Model.Leaf Model.Heap Gen.Params.
 From HL7 Require Import Proofs.HeapFacts Proofs.HeapAtomic.
+From Coq Require Import Lia.
 From HL7 Require Gen.Tables_v2_5.
 Import ListNotations.
 Open Scope bs_scope.
@@ -51,6 +53,27 @@ Theorem C12_atomic_partial_assign_value :
   set_child t e le x p name (VText txt) i s = (s, Err ex).
 Proof. intros. eapply set_child_rejected_value; eauto. Qed.
 Print Assumptions C12_atomic_partial_assign_value.
+
+(* assignment of a text that would APPEND (the addressed repetition does not exist) to an element that
+   is not itself waiting under a traversal parent: whatever refuses it after parsing - cardinality
+   under STRICT, class, level, version - every element allocated before the call is exactly as it was
+   (the parsed copy that was refused is garbage above the old allocation pointer) *)
+Theorem C12_atomic_partial_assign_append :
+  forall (t : tables) (e : ec) le (x : bool) (p : nat) (name txt : str) (i : nat) (s s' : store) (ex : exn) cn cr,
+  set_child t e le x p name (VText txt) i s = (s', Err ex) ->
+  ex <> PyValueError ->
+  p < s_next s ->
+  n_tparent (getn s p) = None ->
+  fcr t (getn s p) (upper name) = Ok (cn, cr) ->
+  (forall cn' cr', fcr t (getn s p) (upper cn) = Ok (cn', cr') -> finder (getn s p) (Some cn') i = None) ->
+  forall q, q < s_next s -> getn s' q = getn s q.
+Proof.
+  intros t e le x p name txt i s s' ex cn cr H Nx Hp Ht Hf Hfind q Hq.
+  destruct (set_child_rejected_append t e le x p name txt i s s' ex cn cr H Nx Hp Ht Hf Hfind)
+    as [[_ S]|(c & Hc & s1 & [_ S1] & ->)]; [now apply S|].
+  unfold pointed. rewrite getn_setn_other by lia. now apply S1.
+Qed.
+Print Assumptions C12_atomic_partial_assign_append.
 
 (* assignment of an element that carries another name (seg.pid_3 = Field('PID_5')) *)
 Theorem C12_atomic_partial_assign_wrong_element :
